@@ -209,6 +209,7 @@ def run(idx: ProgramIndex, rep: Report, tier: str):
         "C03-8": "no method overwrites a tensor owned by the object (cache entry, parameter, buffer, training data) in place, except the `.data` initialisation idiom and flag fill_()",
         "C03-9": "branches on the value-neutral setting detach_test_caches differ by .detach() only (what justifies leaving it out of every cache key)",
         "C03-7": "memo primitives: the three key builders agree, args/kwargs enter the key, clear_cache_hook rebinds to an empty dict",
+        "C03-11": "evaluation-mode caches read by the prediction path do not keep an autograd graph under the default settings.detach_test_caches(True) (or clear themselves when back-propagated through): a backward pass through one prediction leaves the next one differentiable",
         "C03-10": "a value-changing setting read while the model's own modules (kernels, means, likelihoods) are evaluated reaches every prediction cache: the strategy keys or re-validates its caches by it",
     }
     for k, v in rules.items():
@@ -225,6 +226,7 @@ def run(idx: ProgramIndex, rep: Report, tier: str):
     per_call_state(idx, rep)
     state_not_overwritten(idx, rep)
     module_settings_reach_caches(idx, rep)
+    caches_survive_backward(idx, rep)
     rep.assume("regulariser/precision settings (variational_cholesky_jitter, cholesky_jitter, _linalg_dtype_cholesky) are not changed between two evaluation-mode calls on the same model: gpytorch caches Cholesky factors computed with them by design")
     rep.assume("settings read only inside linear_operator (CG vs Cholesky, Lanczos rank) select between algorithms for the same quantity (the 'iterative paths at tight tolerance' caveat of C01)")
     rep.assume("direct parameter edits while staying in eval mode are outside the documented invalidation points (excluded by the property)")
@@ -1179,6 +1181,19 @@ def detach_neutral(idx: ProgramIndex, rep: Report, rule: str = "C03-9", only_fun
             continue
         k = 0
         for node in ast.walk(fi.node):
+            if isinstance(node, ast.IfExp):
+                t = node.test
+                while isinstance(t, ast.UnaryOp) and isinstance(t.op, ast.Not):
+                    t = t.operand
+                if isinstance(t, ast.Call) and isinstance(t.func, ast.Attribute) and t.func.attr in ("on", "off") and (chain(t.func.value) or "").endswith("detach_test_caches"):
+                    n += 1
+                    k += 1
+                    a, b = ast.dump(Strip().visit(copy.deepcopy(node.body))), ast.dump(Strip().visit(copy.deepcopy(node.orelse)))
+                    ok = a == b
+                    rep.add(rule, "%s:%s[detach_test_caches branch %d]" % (fi.module.name, fi.qualname, k), "%s:%d" % (fi.module.relpath, node.lineno), ok,
+                            "both arms compute the same values (they differ by .detach() only)" if ok else
+                            "the arms of the conditional on detach_test_caches differ by more than .detach(): `%s` vs `%s`" % (" ".join(src(node.body).split())[:60], " ".join(src(node.orelse).split())[:60]), {})
+                continue
             if not isinstance(node, ast.If):
                 continue
             t = node.test
@@ -1248,6 +1263,7 @@ MODULE_SETTING_NEUTRAL = {
     "checkpoint_kernel": "chunking of the same products (deprecated beta feature)",
     "num_likelihood_samples": "number of Monte-Carlo samples of non-Gaussian likelihoods: not part of any exact prediction cache",
     "observation_nan_policy": "keyed into the mean cache / handled by C16-3 and C16-6",
+    "detach_test_caches": "autograd attachment only; that the two branches differ by .detach() alone is C03-9's obligation",
     "debug": "argument checks only",
     "trace_mode": "tracing only",
     "memory_efficient": "storage only",
@@ -1326,3 +1342,93 @@ def module_settings_reach_caches(idx: ProgramIndex, rep: Report):
                 "the strategy class does not depend on how the covariance happens to be represented" if not bad else
                 "the strategy class is chosen by isinstance(train_train_covar, LazyEvaluatedKernelTensor) (%s), and whether the covariance is lazy is decided by settings.lazily_evaluate_kernels at the first evaluation-mode call: the model keeps the strategy of that call (a kernel-specific strategy vs. the default one) for all later calls under the other value of the setting" % " | ".join(alt), {})
     rep.floor("C03-10", "(module method, setting) pairs", n, 6)
+
+
+# ---- C03-11 --------------------------------------------------------------------------------------------------------
+def caches_survive_backward(idx: ProgramIndex, rep: Report):
+    """'...and backward passes through non-detached predictions': a cache that keeps the autograd graph of its computation is freed by the
+    first backward pass that runs through it; every later prediction that reads the cache then fails to differentiate ('Trying to
+    backward through the graph a second time') although a fresh model would.  The library's convention (DefaultPredictionStrategy): a
+    cache is stored detached when settings.detach_test_caches is on (the default), otherwise a hook on its grad_fn clears the memo.
+    Judged: (a) @cached members of the prediction strategies that the prediction path reads, (b) attribute caches that kernels fill in
+    evaluation mode."""
+    n = 0
+
+    def honours(fn_node) -> Tuple[bool, str]:
+        det_branch = False
+        for st in ast.walk(fn_node):
+            if isinstance(st, (ast.If, ast.IfExp)) and "detach_test_caches" in src(st.test):
+                body = st.body if isinstance(st.body, list) else [st.body]
+                if any(isinstance(c, ast.Call) and isinstance(c.func, ast.Attribute) and c.func.attr == "detach" for b in body for c in ast.walk(b)):
+                    det_branch = True
+        if det_branch:
+            return True, "stored detached when settings.detach_test_caches is on"
+        if any(isinstance(c, ast.Call) and isinstance(c.func, ast.Attribute) and c.func.attr == "register_hook" for c in ast.walk(fn_node)):
+            return True, "a grad_fn hook clears the memo"
+        if any(isinstance(w, ast.With) and any("no_grad" in src(i.context_expr) for i in w.items) for w in ast.walk(fn_node)):
+            return True, "computed under torch.no_grad()"
+        return False, ""
+
+    strategies = [c for c in idx.package_classes() if c.name.endswith("PredictionStrategy")]
+    for cls in sorted(strategies, key=lambda c: c.qualname):
+        for mname, m in sorted(cls.methods.items()):
+            cname, _ig = cache_name_of(m)
+            if cname is None:
+                continue
+            # terminal: read by a method of the hierarchy that is neither cached itself nor builds another strategy
+            readers = []
+            for k in cls.repo_mro() + [c for c in strategies if c.is_subclass_of(cls)]:
+                for f in k.methods.values():
+                    if cache_name_of(f)[0] is not None or f.name in ("get_fantasy_strategy", "__init__", "__deepcopy__"):
+                        continue
+                    if any(isinstance(x, ast.Attribute) and x.attr == mname and chain(x.value) == "self" for x in ast.walk(f.node)):
+                        readers.append(f.qualname)
+            if not readers:
+                continue
+            n += 1
+            ok, why = honours(m.node)
+            if not ok:
+                # delegation: the value comes out of another method of self that honours the convention
+                for c in calls_in(m.node):
+                    if isinstance(c.func, ast.Attribute) and chain(c.func.value) == "self":
+                        t = cls.lookup(c.func.attr)
+                        if t is not None and t is not m and honours(t.node)[0]:
+                            ok, why = True, "value produced by self.%s, which honours the convention" % t.name
+            rep.add("C03-11", "%s:%s.%s[%s]" % (cls.module.name, cls.qualname, mname, cname), m.where, ok, why if ok else
+                    "the cache '%s' is read by %s and stored with its autograd graph whatever settings.detach_test_caches says: after one backward pass through a prediction, the next prediction that needs a gradient through this cache raises 'Trying to backward through the graph a second time' (a fresh model does not)" % (cname, ", ".join(sorted(set(readers))[:3])), {})
+    K = idx.find_class("Kernel")
+    for cls in sorted([K] + list(idx.subclasses(K)), key=lambda c: c.qualname):
+        for mname, m in sorted(cls.methods.items()):
+            for a in ast.walk(m.node):
+                if not (isinstance(a, ast.Assign) and len(a.targets) == 1 and isinstance(a.targets[0], ast.Attribute) and chain(a.targets[0].value) == "self" and "cache" in a.targets[0].attr):
+                    continue
+                guards = [g for g in _enclosing_ifs(m.node, a) if "training" in src(g)]
+                if not guards:
+                    continue
+                n += 1
+                v = a.value
+                det = (isinstance(v, ast.IfExp) and "detach_test_caches" in src(v.test) and "detach" in src(v.body)) or (isinstance(v, ast.Call) and isinstance(v.func, ast.Attribute) and v.func.attr == "detach") or honours(m.node)[0]
+                rep.add("C03-11", "%s:%s.%s[self.%s]" % (cls.module.name, cls.qualname, mname, a.targets[0].attr), "%s:%d" % (m.module.relpath, a.lineno), det,
+                        "stored detached when settings.detach_test_caches is on" if det else
+                        "the evaluation-mode cache self.%s keeps the autograd graph of `%s`: after one backward pass through a prediction the next differentiated prediction raises 'Trying to backward through the graph a second time'" % (a.targets[0].attr, " ".join(src(v).split())[:40]), {})
+    rep.floor("C03-11", "evaluation-mode caches on the prediction path", n, 8)
+
+
+def _enclosing_ifs(fn: ast.AST, target: ast.AST) -> List[ast.AST]:
+    out: List[ast.AST] = []
+
+    def rec(stmts, acc) -> bool:
+        for st in stmts:
+            if st is target or any(x is target for x in ast.walk(st)):
+                if isinstance(st, ast.If):
+                    if rec(st.body, acc + [st.test]) or rec(st.orelse, acc + [st.test]):
+                        return True
+                for blk in ("body", "orelse", "finalbody"):
+                    if not isinstance(st, ast.If) and isinstance(getattr(st, blk, None), list) and rec(getattr(st, blk), acc):
+                        return True
+                if st is target:
+                    out.extend(acc)
+                    return True
+        return False
+    rec(fn.body, [])
+    return out
